@@ -11,7 +11,10 @@ import (
 
 	"github.com/ethereum/go-ethereum/common"
 	"github.com/ethereum/go-ethereum/crypto/ecies"
+	blst "github.com/supranational/blst/bindings/go"
 	"google.golang.org/protobuf/proto"
+
+	"github.com/shutter-network/shutter/shlib/shcrypto"
 
 	"github.com/shutter-network/rolling-shutter/rolling-shutter/shmsg"
 )
@@ -60,6 +63,27 @@ type vfAppBounds struct {
 	// parts of the state a kernel does not read may be left at their initial (empty) value;
 	// each harness states which parts it leaves out
 	noFork, noCheckTx bool
+	noVoting, noDKG, noIdentities, noBlocksSeen, noValidators, noNonces bool
+}
+
+// vfPartsFor leaves out the parts of the state that the handler of the given message kind does not
+// read (recorded per harness as a cut): -1 keeps everything.
+func vfPartsFor(b vfAppBounds, kind int) vfAppBounds {
+	switch kind {
+	case 0: // BatchConfig: configs, config voting, eon counter, DKG map (StartDKG inserts)
+		b.noIdentities, b.noBlocksSeen, b.noValidators, b.noFork = true, true, true, true
+	case 1: // BlockSeen
+		b.noVoting, b.noDKG, b.noIdentities, b.noValidators, b.noFork = true, true, true, true, true
+	case 2: // CheckIn
+		b.noVoting, b.noDKG, b.noBlocksSeen, b.noValidators = true, true, true, true
+	case 3: // DKGResult
+		b.noVoting, b.noIdentities, b.noBlocksSeen, b.noValidators, b.noFork = true, true, true, true, true
+	case 4, 5, 6, 7: // DKG messages
+		b.noVoting, b.noIdentities, b.noBlocksSeen, b.noValidators, b.noFork = true, true, true, true, true
+	case 8, 9:
+		b.noVoting, b.noDKG, b.noIdentities, b.noBlocksSeen, b.noValidators, b.noFork = true, true, true, true, true, true
+	}
+	return b
 }
 
 func vfBounds() vfAppBounds {
@@ -102,20 +126,23 @@ func vfApp(b vfAppBounds) *ShutterApp {
 	app.EONCounter = vfU64("eoncounter")
 	vfAssume(app.EONCounter < 1<<62)
 	app.DevMode = vfBool("devmode")
-	for i := 0; i < b.identities; i++ {
+	for i := 0; i < b.identities && !b.noIdentities; i++ {
 		vfPutIf(vfBool("identity.present"), app.Identities, vfAddr("identity.addr"), vfPubkey("identity.key"))
 	}
-	for i := 0; i < b.blocksSeen; i++ {
+	for i := 0; i < b.blocksSeen && !b.noBlocksSeen; i++ {
 		vfPutIf(vfBool("blockseen.present"), app.BlocksSeen, vfAddr("blockseen.addr"), vfU64("blockseen.block"))
 	}
 	app.Validators = make(Powermap)
-	for i := 0; i < b.validators; i++ {
+	for i := 0; i < b.validators && !b.noValidators; i++ {
 		p := vfI64("validator.power")
 		vfAssume(p > 0)
 		vfPutIf(vfBool("validator.present"), app.Validators, vfPubkey("validator.key"), p)
 	}
 	// DKG instances: eon <= EONCounter, voters are keypers of the instance's config, votes index candidates
 	nd := vfLen("ndkgs", b.dkgs)
+	if b.noDKG {
+		nd = 0
+	}
 	for i := 0; i < nd; i++ {
 		eon := vfU64("dkg.eon")
 		vfAssume(eon <= app.EONCounter)
@@ -123,23 +150,27 @@ func vfApp(b vfAppBounds) *ShutterApp {
 		cfg.Started = vfBool("dkg.cfg.started")
 		cfg.ValidatorsUpdated = vfBool("dkg.cfg.valupd")
 		d := NewDKGInstance(cfg, eon)
-		nv := vfLen("dkg.nvotes", len(cfg.Keypers))
-		for j := 0; j < nv; j++ {
-			// each keyper votes at most once: AddVote refuses a second vote
-			_ = d.SuccessVoting.AddVote(cfg.Keypers[j], vfBool("dkg.vote"))
+		// candidate list shape: [], [x], [x, !x]; votes of keypers index the candidates
+		switch vfLen("dkg.ncandidates", 2) {
+		case 1:
+			d.SuccessVoting.Candidates = []bool{vfBool("dkg.cand0")}
+		case 2:
+			c0 := vfBool("dkg.cand0")
+			d.SuccessVoting.Candidates = []bool{c0, !c0}
 		}
-		for j := 0; j < vfParam("seen", 1); j++ {
-			if vfBool("dkg.seen.commit") {
-				d.PolyCommitmentsSeen[vfPickKeyper("dkg.seen.commit", &cfg)] = struct{}{}
+		for _, k := range cfg.Keypers {
+			if nc := len(d.SuccessVoting.Candidates); nc > 0 {
+				v := vfInt("dkg.vote")
+				vfAssume(v >= 0 && v < nc)
+				vfPutIf(vfBool("dkg.voted"), d.SuccessVoting.Votes, k, v)
 			}
-			if vfBool("dkg.seen.accusation") {
-				d.AccusationsSeen[vfPickKeyper("dkg.seen.accusation", &cfg)] = struct{}{}
-			}
-			if vfBool("dkg.seen.apology") {
-				d.ApologiesSeen[vfPickKeyper("dkg.seen.apology", &cfg)] = struct{}{}
-			}
-			if vfBool("dkg.seen.eval") {
-				d.PolyEvalsSeen[SenderReceiverPair{vfPickKeyper("dkg.seen.eval.s", &cfg), vfPickKeyper("dkg.seen.eval.r", &cfg)}] = struct{}{}
+			vfPutIf(vfBool("dkg.seen.commit"), d.PolyCommitmentsSeen, k, struct{}{})
+			vfPutIf(vfBool("dkg.seen.accusation"), d.AccusationsSeen, k, struct{}{})
+			vfPutIf(vfBool("dkg.seen.apology"), d.ApologiesSeen, k, struct{}{})
+			for _, r := range cfg.Keypers {
+				if r != k {
+					vfPutIf(vfBool("dkg.seen.eval"), d.PolyEvalsSeen, SenderReceiverPair{k, r}, struct{}{})
+				}
 			}
 		}
 		app.DKGMap[eon] = &d
@@ -148,6 +179,9 @@ func vfApp(b vfAppBounds) *ShutterApp {
 	// no candidate has reached the threshold yet
 	last := app.LastConfig()
 	ncand := vfLen("ncandidates", b.candidates)
+	if b.noVoting {
+		ncand = 0
+	}
 	for i := 0; i < ncand; i++ {
 		c := *vfConfig("candidate", b.keypers)
 		c.Started, c.ValidatorsUpdated = false, false
@@ -163,7 +197,7 @@ func vfApp(b vfAppBounds) *ShutterApp {
 		vfAssume(!done)
 	}
 	// nonce trackers
-	for i := 0; i < b.nonces; i++ {
+	for i := 0; i < b.nonces && !b.noNonces; i++ {
 		if vfBool("nonce.present") {
 			app.NonceTracker.Add(vfAddr("nonce.addr"), vfU64("nonce.value"))
 		}
@@ -193,9 +227,14 @@ func vfByteList(tag string, maxN, maxLen int) [][]byte {
 
 // vfMessage: an arbitrary decoded shmsg.Message (every oneof variant, nil payloads, lists of
 // byte strings of arbitrary length).
-func vfMessage(listMax int) *shmsg.Message {
+func vfMessage(listMax int) *shmsg.Message { return vfMessageKind(listMax, -1) }
+
+func vfMessageKind(listMax, kind int) *shmsg.Message {
 	addrLen := 21 // one more than an address, so that wrong lengths are covered
-	switch vfLen("msg.kind", 9) {
+	if kind < 0 {
+		kind = vfLen("msg.kind", 9)
+	}
+	switch kind {
 	case 0:
 		return &shmsg.Message{Payload: &shmsg.Message_BatchConfig{BatchConfig: &shmsg.BatchConfig{
 			ActivationBlockNumber: vfU64("bc.activation"), Keypers: vfByteList("bc.keyper", listMax, addrLen),
@@ -305,12 +344,34 @@ func vfStubExportECDSA(p *ecies.PublicKey) *ecdsa.PublicKey { return &ecdsa.Publ
 // vfTx prepares an arbitrary transaction for decodeTx: raw bytes of arbitrary length (the
 // signature-length check of GetSigner is executed on them), decode failures at every stage,
 // an arbitrary signer and an arbitrary decoded message.
-func vfTx(listMax int) []byte {
+func vfTx(listMax int) []byte { return vfTxKind(listMax, -1) }
+
+func vfTxKind(listMax, kind int) []byte {
 	vfDecodeFails = vfBool("tx.base64-fails")
 	vfSigFails = vfBool("tx.sig-fails")
 	vfProtoFails = vfBool("tx.proto-fails")
 	vfTxRaw = vfBytes("tx.raw", 70)
 	vfTxSigner = vfAddr("tx.signer")
-	vfTxMsg = &shmsg.MessageWithNonce{Msg: vfMessage(listMax), ChainId: vfBytes("tx.chainid", 4), RandomNonce: vfU64("tx.nonce")}
+	vfTxMsg = &shmsg.MessageWithNonce{Msg: vfMessageKind(listMax, kind), ChainId: vfBytes("tx.chainid", 4), RandomNonce: vfU64("tx.nonce")}
 	return []byte("tx")
 }
+
+//verif:stub (*github.com/shutter-network/shutter/shlib/shcrypto.Gammas).Marshal
+func vfStubGammasMarshal(g *shcrypto.Gammas) []byte {
+	acc := uint64(len(*g))
+	for _, p := range *g {
+		acc = vfUFU64("gammas-mix", acc, vfTagOf(p))
+	}
+	return vfUFBytesN("gammas-bytes", 4, acc)
+}
+
+//verif:stub (*github.com/supranational/blst/bindings/go.P2Affine).Uncompress
+func vfStubUncompress(p *blst.P2Affine, in []byte) *blst.P2Affine {
+	if !vfUFBool("g2-decompresses", in) {
+		return nil
+	}
+	return vfTagged[blst.P2Affine](vfUFU64("g2-point", in))
+}
+
+//verif:stub (*github.com/supranational/blst/bindings/go.P2Affine).InG2
+func vfStubInG2(p *blst.P2Affine) bool { return vfUFBool("in-g2", vfTagOf(p)) }
